@@ -91,7 +91,7 @@ Record st := {
   conns : key -> option nat; dialing : key -> option nat;
   dials : nat -> option dial; cns : nat -> option conn;
   next_c : nat; next_w : nat; idle : bool;
-  seen : list nat;                (* wire ids the upstream has been sent *)
+  seen : list (nat * nat);        (* (wire id, sender) of every subscribe frame the upstream has been sent *)
   sse : nat -> ssepc
 }.
 
@@ -105,6 +105,9 @@ Inductive ev :=
 | OSrvStop (c w : nat)
 | OSrvClosed (c : nat)
 | OUp (c w : nat) (k : kind)
+| OAccept (d : nat) | OReject (d : nat) | OAck (d : nat) | OInitFail (d : nat) (r : N)
+| ODrop (c : nat) | OPing (c : nat)
+| OTick | OStats (ws sse : nat)
 | OSseReq (i : nat) | OSseRet (i : nat) (ok : bool) | OSseUp (i : nat) (k : kind)
 | OSseDeliver (i : nat) (k : kind) | OSseErr (i : nat).
 
@@ -298,14 +301,14 @@ Definition step (s : st) (a : action) : option (st * list ev) :=
   | UpAccept d =>
     match dials s d with
     | Some x => match d_phase x with
-                | DConnecting => Some (set_dial s d (d_set x DInit None), [])
+                | DConnecting => Some (set_dial s d (d_set x DInit None), [OAccept d])
                 | _ => None end
     | None => None
     end
   | UpReject d =>
     match dials s d with
     | Some x => match d_phase x with
-                | DConnecting => Some (set_pc (set_dial s d (d_set x DReturned None)) (d_owner x) (SPublish d (Some EDial)), [])
+                | DConnecting => Some (set_pc (set_dial s d (d_set x DReturned None)) (d_owner x) (SPublish d (Some EDial)), [OReject d])
                 | _ => None end
     | None => None
     end
@@ -315,14 +318,14 @@ Definition step (s : st) (a : action) : option (st * list ev) :=
                 | DInit =>
                   let cn := {| c_key := d_key x; c_subs := []; c_closed := false; c_dead := None; c_timers := 0;
                                c_tclose := 0; c_rl := RLRun; c_rm := false |} in
-                  Some (set_pc (set_cn (set_dial s d (d_set x DReturned None)) d cn) (d_owner x) (SPublish d None), [])
+                  Some (set_pc (set_cn (set_dial s d (d_set x DReturned None)) d cn) (d_owner x) (SPublish d None), [OAck d])
                 | _ => None end
     | None => None
     end
   | UpInitFail d r =>
     match dials s d with
     | Some x => match d_phase x with
-                | DInit => Some (set_pc (set_dial s d (d_set x DReturned None)) (d_owner x) (SPublish d (Some (EInit r))), [OSrvClosed d])
+                | DInit => Some (set_pc (set_dial s d (d_set x DReturned None)) (d_owner x) (SPublish d (Some (EInit r))), [OInitFail d r; OSrvClosed d])
                 | _ => None end
     | None => None
     end
@@ -375,7 +378,7 @@ Definition step (s : st) (a : action) : option (st * list ev) :=
         | None =>
           Some ({| pc := upd (pc s) i (SActive c w); ctxc := ctxc s; okey := okey s; conns := conns s;
                    dialing := dialing s; dials := dials s; cns := cns s; next_c := next_c s; next_w := next_w s;
-                   idle := idle s; seen := w :: seen s; sse := sse s |}, [OSrvSub c w i; ORet i None])
+                   idle := idle s; seen := (w, i) :: seen s; sse := sse s |}, [OSrvSub c w i; ORet i None])
         | Some z => Some (set_pc s i (SRemove c w (KSendFail (EWrite z))), [])
         end
       | None => None
@@ -398,7 +401,7 @@ Definition step (s : st) (a : action) : option (st * list ev) :=
               if kill then
                 Some ({| pc := upd (pc s) i (SActive c w); ctxc := ctxc s; okey := okey s; conns := conns s;
                          dialing := dialing s; dials := dials s; cns := upd (cns s) c (Some x'); next_c := next_c s;
-                         next_w := next_w s; idle := idle s; seen := w :: seen s; sse := sse s |},
+                         next_w := next_w s; idle := idle s; seen := (w, i) :: seen s; sse := sse s |},
                       [OSrvSub c w i; ORet i None] ++ kev)
               else None   (* = ASend *)
             else Some (set_pc (set_cn s c x') i (SRemove c w (KSendFail (ECtx i false))), kev)
@@ -454,7 +457,7 @@ Definition step (s : st) (a : action) : option (st * list ev) :=
     | Some x =>
       match c_rl x, c_closed x, c_dead x with
       | RLRun, false, None =>
-        if mem_nat w (seen s) || Nat.leb (next_w s) w then
+        if mem_nat w (map fst (seen s)) || Nat.leb (next_w s) w then
           match lookup w (c_subs x) with
           | Some i => Some (if terminal k then set_cn s c (c_set_rl x (RLRemove w)) else s, [OUp c w k; ODeliver i k])
           | None => Some (s, [OUp c w k])
@@ -539,13 +542,13 @@ Definition step (s : st) (a : action) : option (st * list ev) :=
   | UpDrop c =>
     match cns s c with
     | Some x => match c_dead x with
-                | None => Some (set_cn s c (c_kill x CUpstream), [OSrvClosed c])
+                | None => Some (set_cn s c (c_kill x CUpstream), [ODrop c; OSrvClosed c])
                 | Some _ => None end
     | None => None
     end
   | APingTimeout c =>
     match cns s c with
-    | Some x => if c_closed x then None else let (s1, evs) := shut s c CPing in Some (s1, evs)
+    | Some x => if c_closed x then None else let (s1, evs) := shut s c CPing in Some (s1, OPing c :: evs)
     | None => None
     end
   (* ---- SSE: one connection per subscription ---- *)
@@ -560,8 +563,8 @@ Definition step (s : st) (a : action) : option (st * list ev) :=
   | SseDrop i => match sse s i with SseActive => Some (set_sse s i SseEnded, [OSseErr i]) | _ => None end
   | SseCancel i =>
     match sse s i with
-    | SseActive => Some (set_sse s i SseEnded, [])
-    | SseReq => Some (set_sse s i SseEnded, [OSseRet i false])
+    | SseActive => Some (set_sse s i SseEnded, [OCancel i])
+    | SseReq => Some (set_sse s i SseEnded, [OCancel i; OSseRet i false])
     | _ => None
     end
   end.
